@@ -143,8 +143,11 @@ CheckC(props, layout, lc, keys, pre, physPre, outPre, mon, e, post, ev, rep) ==
                           IN Tag(\E x \in SeqSet(cand.to): IsMod(x) /\ x \notin d, "C04a")
                              \cup Tag(\E x \in d: IsMod(x) /\ x \notin SeqSet(cand.to)
                                         /\ ~(x \in physPost /\ x \notin SeqSet(cand.from))
+                                        \* (a modifier-remapping that is still in effect may keep its modifier down: in effect = recorded by the
+                                        \* mapper AND its trigger keys still physically held)
                                         /\ ~(\E j \in 1..Len(post.active): post.active[j] # cand /\ post.active[j].to # <<>>
-                                               /\ IsMod(LastOf(post.active[j].to)) /\ InSeq(post.active[j].to, x)), "C04b")
+                                               /\ IsMod(LastOf(post.active[j].to)) /\ InSeq(post.active[j].to, x)
+                                               /\ SeqSet(post.active[j].from) \subseteq physPost), "C04b")
       a04 == IF hasAbs \/ e.t # "P" \/ ~acted \/ ~hasCand \/ cand.to = <<>> THEN {}
              ELSE IF IsMod(LastOf(cand.to)) THEN {}
              ELSE {"C04-keypress"} \cup Tag(\E x \in outPre: IsMod(x), "C04-mods-down-before")
